@@ -31,10 +31,16 @@ def alphabet(base_non):
     return [A, B, C, D, E], ["A", "B", "C", "D", "E"], [A, B, C, D, B]
 
 
+NONDEFAULT = dict(xpoint_poloidal_spacing_length=3.0, target_all_poloidal_spacing_length=0.8)
+
+
 def starts(tier):
+    """(geometry, wall, extra user options).  One start state has non-default ordinary spacing
+    options, from which the defaults of the nonorthogonal_* lengths are derived."""
     if tier == "quick":
-        return [("lsn", "W0"), ("cdn", "W0")]
-    return [("lsn", "W0"), ("usn", "W0"), ("cdn", "W0"), ("udn", "W0"), ("ldn", "W0"), ("lsn", "W6")]
+        return [("lsn", "W0", {}), ("lsn", "W0", NONDEFAULT), ("cdn", "W0", {})]
+    return [("lsn", "W0", {}), ("lsn", "W0", NONDEFAULT), ("usn", "W0", {}), ("cdn", "W0", {}),
+            ("udn", "W0", NONDEFAULT), ("ldn", "W0", {}), ("lsn", "W6", {})]
 
 
 def compare_state(ctx, label, hist_names, state, scratch, start_art, stats, first_state):
@@ -110,11 +116,11 @@ def run(ctx):
     states = transitions = 0
     validated = 0
     st = starts(ctx.tier)
-    base_members = [lattice.mk(g, False, wall=w) for g, w in st]
+    base_members = [lattice.mk(g, False, wall=w, opt=dict(o) or None) for g, w, o in st]
     base_arts = corpus.ensure(base_members, log=ctx.log)
     plans = []
     members = []
-    for (g, w), bm, ba in zip(st, base_members, base_arts):
+    for (g, w, o), bm, ba in zip(st, base_members, base_arts):
         if not ba.ok:
             ctx.log("start state %s/%s refused: %s" % (g, w, ba.meta.get("exc_msg")))
             continue
@@ -122,12 +128,12 @@ def run(ctx):
         # one process per first transition: explores the subtree below it
         hist_members = []
         for k in range(len(alpha)):
-            m = lattice.mk(g, False, wall=w, tags=["history"])
+            m = lattice.mk(g, False, wall=w, opt=dict(o) or None, tags=["history"])
             m.update(kind="history", alphabet=alpha, first=[k], depth=depth, watchdog_s=3000,
-                     label="%s/%s history subtree %s depth %d" % (g, w, names[k], depth))
+                     label="%s/%s%s history subtree %s depth %d" % (g, w, "/nondefault" if o else "", names[k], depth))
             hist_members.append(m)
-        scratch = [lattice.mk(g, False, wall=w, non=s_) if s_ else bm for s_ in scratch_settings]
-        plans.append((g, w, ba, alpha, names, hist_members, scratch))
+        scratch = [lattice.mk(g, False, wall=w, opt=dict(o) or None, non=s_) if s_ else bm for s_ in scratch_settings]
+        plans.append((g, w + ("/nondefault" if o else ""), ba, alpha, names, hist_members, scratch))
         members += hist_members + scratch
     arts = corpus.ensure(members, log=ctx.log, timeout=3000)
     amap = {id(m): a for m, a in zip(members, arts)}
